@@ -44,19 +44,21 @@ FileIdx(fs, name) == CHOOSE i \in 1..Len(fs) : fs[i].name = name
 \* a comment line after the header and a blank line before every declaration) - the line lookups must cope with both
 Loose(f) == "loose" \in DOMAIN f /\ f.loose
 Gap(f) == IF Loose(f) THEN "   " ELSE " "
+\* line terminator of the file: "\n" or "\r\n" (f.eol); the line of a declaration is the same under both
+Eol(f) == IF "eol" \in DOMAIN f THEN f.eol ELSE "\n"
 RECURSIVE RelLines(_, _, _, _)
-RelLines(f, rels, i, k) == IF i > Len(rels) THEN "" ELSE "    define" \o Gap(f) \o rels[i] \o (IF Loose(f) THEN " :" ELSE ":") \o " [k" \o ToString(k) \o "]\n" \o RelLines(f, rels, i + 1, k)
-DeclText(f, d, k) == (IF Loose(f) THEN "\n" ELSE "")
-                     \o (IF d.kind = "ext" THEN "extend" \o Gap(f) \o "type" \o Gap(f) ELSE "type" \o Gap(f)) \o d.name \o "\n"
-                     \o (IF Len(d.rels) > 0 THEN "  relations\n" \o RelLines(f, d.rels, 1, k) ELSE "")
+RelLines(f, rels, i, k) == IF i > Len(rels) THEN "" ELSE "    define" \o Gap(f) \o rels[i] \o (IF Loose(f) THEN " :" ELSE ":") \o " [k" \o ToString(k) \o "]" \o Eol(f) \o RelLines(f, rels, i + 1, k)
+DeclText(f, d, k) == (IF Loose(f) THEN Eol(f) ELSE "")
+                     \o (IF d.kind = "ext" THEN "extend" \o Gap(f) \o "type" \o Gap(f) ELSE "type" \o Gap(f)) \o d.name \o Eol(f)
+                     \o (IF Len(d.rels) > 0 THEN "  relations" \o Eol(f) \o RelLines(f, d.rels, 1, k) ELSE "")
 DeclLen(f, d) == (IF Loose(f) THEN 1 ELSE 0) + 1 + (IF Len(d.rels) > 0 THEN 1 + Len(d.rels) ELSE 0)
-CondText(f, c, k) == (IF Loose(f) THEN "\n" ELSE "") \o "condition" \o Gap(f) \o c \o (IF Loose(f) THEN " (x: int) {\n  x < " ELSE "(x: int) {\n  x < ") \o ToString(k) \o "\n}\n"
+CondText(f, c, k) == (IF Loose(f) THEN Eol(f) ELSE "") \o "condition" \o Gap(f) \o c \o (IF Loose(f) THEN " (x: int) {" ELSE "(x: int) {") \o Eol(f) \o "  x < " \o ToString(k) \o Eol(f) \o "}" \o Eol(f)
 CondLen(f) == IF Loose(f) THEN 4 ELSE 3
 RECURSIVE DeclsText(_, _, _, _)
 DeclsText(f, ds, i, k) == IF i > Len(ds) THEN "" ELSE DeclText(f, ds[i], k) \o DeclsText(f, ds, i + 1, k)
 RECURSIVE CondsText(_, _, _, _)
 CondsText(f, cs, i, k) == IF i > Len(cs) THEN "" ELSE CondText(f, cs[i], k) \o CondsText(f, cs, i + 1, k)
-HeaderText(f) == (IF Modular(f) THEN "module " \o f.header \o "\n" ELSE "model\n  schema 1.1\n") \o (IF Loose(f) THEN "# declarations of " \o f.name \o "\n" ELSE "")
+HeaderText(f) == (IF Modular(f) THEN "module " \o f.header \o Eol(f) ELSE "model" \o Eol(f) \o "  schema 1.1" \o Eol(f)) \o (IF Loose(f) THEN "# declarations of " \o f.name \o Eol(f) ELSE "")
 HeaderLen(f) == (IF Modular(f) THEN 1 ELSE 2) + (IF Loose(f) THEN 1 ELSE 0)
 Text(f, k) == HeaderText(f) \o DeclsText(f, f.decls, 1, k) \o CondsText(f, f.conds, 1, k)
 RECURSIVE SumLen(_, _, _)
